@@ -353,6 +353,22 @@ def spectator_laden(rng, n):
     return out
 
 
+def zero_confidence(rng, n):
+    """metal / noble-gas hexahalide -> bare element next to an untouched organic molecule: reaches the MCS
+    stage, is completed with six hydrogen halides and is scored 0.000 by the shipped confidence model
+    (measured on the pinned tree for U, W, Mo, Xe x F, Cl x 4 organics: 32 of 32), i.e. a confidence
+    *equal* to the default threshold 0"""
+    org = ["CCO", "c1ccccc1", "CC(=O)O", "CCN", "CCOCC", "CC(C)=O", "c1ccncc1", "CC#N", "CCCC", "OCCO"]
+    out = []
+    for i in range(n):
+        m, x, o = rng.choice(["U", "W", "Mo", "Xe"]), rng.choice(["F", "Cl"]), rng.choice(org)
+        hal = "%s[%s](%s)(%s)(%s)(%s)%s" % (x, m, x, x, x, x, x)
+        parts = [o, hal]
+        rng.shuffle(parts)
+        out.append(("zeroconf|%s%s6|%d" % (m, x, i), "%s>>%s.[%s]" % (".".join(parts), o, m)))
+    return [(t, s) for t, s in out if oracle.in_domain_rsmi(s)]
+
+
 def dihalogen_oxygen_loss(rng, n):
     """products lack X.Y (+ O, O3) relative to the reactants: the only completions are elemental
     dihalogens / interhalogens plus oxygen placeholders, which must never be accepted on the product side"""
